@@ -172,6 +172,32 @@ def r02d(model: Model, rr: RuleResult):
     else:
         rr.bad(fi, ens[0], "the mapping handed to the renumbering step is not a fresh name -> ColorGlyph dict", construct=short(ens[0]))
     # every glyph_id / _add_glyph use after the call goes through that mapping, with no re-definition in between
+    from ..model import parent_map as _pm
+    pmap = _pm(fi.node)
+
+    def via_mapping(at, e) -> bool:
+        """does the value of `e` come out of <mapping>[...] (directly, through temporaries, loop variables or comprehension variables)?"""
+        todo, seen = [e], set()
+        while todo:
+            x = todo.pop()
+            if id(x) in seen:
+                continue
+            seen.add(id(x))
+            _, exprs = expr_closure(cfg, at, x)
+            for y in exprs:
+                for z in ast.walk(y):
+                    if isinstance(z, ast.Subscript) and isinstance(z.value, ast.Name) and z.value.id == mapping.id:
+                        return True
+            # a comprehension variable stands for the elements of what its comprehension iterates
+            for nm in [z for z in ast.walk(x) if isinstance(z, ast.Name)]:
+                p_ = pmap.get(nm)
+                while p_ is not None and not isinstance(p_, (ast.GeneratorExp, ast.ListComp, ast.SetComp, ast.DictComp)):
+                    p_ = pmap.get(p_)
+                if p_ is not None:
+                    for g_ in p_.generators:
+                        if any(isinstance(t_, ast.Name) and t_.id == nm.id for t_ in ast.walk(g_.target)):
+                            todo.append(g_.iter)
+        return False
     for n in walk_body(fi):
         if isinstance(n, ast.Attribute) and n.attr == "glyph_id":
             at = cfg.node_for(n)
@@ -179,7 +205,7 @@ def r02d(model: Model, rr: RuleResult):
                 rr.bad(fi, n, "a glyph id is read before the glyphs are renumbered", construct=short(n))
                 continue
             base = norm(n.value)
-            if base.startswith(f"{mapping.id}[") and [d.node for d in cfg.reaching(at, mapping.id)] == [d.node for d in mdefs]:
+            if (base.startswith(f"{mapping.id}[") or via_mapping(at, n.value)) and [d.node for d in cfg.reaching(at, mapping.id)] == [d.node for d in mdefs]:
                 rr.ok(f"glyph id read as {short(n, 50)} from the renumbered mapping")
             else:
                 rr.bad_shape(fi, n, f"glyph id read from {base}, not from the renumbered mapping {mapping.id}[...]: document ranges would use stale ids", construct=short(n, 80))
@@ -187,7 +213,7 @@ def r02d(model: Model, rr: RuleResult):
     for c in adds:
         at = cfg.node_for(c)
         names, exprs = expr_closure(cfg, at, c.args[1])
-        if cfg.dominates(en, at) and any(norm(e).startswith(f"({mapping.id}[") or f"{mapping.id}[g]" in norm(e) for e in exprs):
+        if cfg.dominates(en, at) and (any(norm(e).startswith(f"({mapping.id}[") or f"{mapping.id}[g]" in norm(e) for e in exprs) or via_mapping(at, c.args[1])):
             rr.ok("_add_glyph receives colour glyphs looked up in the renumbered mapping")
         else:
             rr.bad(fi, c, "_add_glyph does not receive the renumbered colour glyph (its <g id='glyphN'> would carry the old id)", construct=short(c))
@@ -200,7 +226,9 @@ def r02d(model: Model, rr: RuleResult):
     app = [c for c in calls_in(fi) if callee_tail(c) == "append" and "doc_list" in norm(c.func)]
     if len(app) == 1 and isinstance(app[0].args[0], ast.Tuple) and [norm(x) for x in app[0].args[0].elts[1:]] == ["min(gids)", "max(gids)"]:
         gd = cfg.reaching(cfg.node_for(app[0]), "gids")
-        if len(gd) == 1 and "for g in group" in norm(gd[0].value):
+        gnames, _ = expr_closure(cfg, cfg.node_for(app[0]), ast.Name(id="gids", ctx=ast.Load()))
+        gvar = norm(loops[0].target) if len(loops) == 1 else "group"
+        if len(gd) == 1 and ("for g in group" in norm(gd[0].value) or (gvar in gnames and any(isinstance(z, ast.Attribute) and z.attr == "glyph_id" for z in ast.walk(gd[0].value)))):
             rr.ok("document range = (min(gids), max(gids)) of the group being emitted")
         else:
             rr.bad_shape(fi, app[0], "gids is not computed from the group being emitted", construct="gids definition")
